@@ -129,14 +129,25 @@ def build_network(net):
         nw.register_evse(build_evse(s["id"], s["evse"]), s["voltage"], s["phase"])
         if k == net.get("query_after_first_registrations", -1) and hasattr(nw, "available_evses"):
             nw.available_evses()      # the operator looks at the free spaces while the site is still being set up
-    for c in net["constraints"]:
+    draft = net.get("draft")
+    for k, c in enumerate(net["constraints"]):
+        if draft is not None and k == draft["at"]:
+            nw.add_constraint(sut.Current(dict(draft["coeffs"])), draft["limit"], name=draft["name"])
+        if draft is not None and k == len(net["constraints"]) - 1:
+            # the operator's draft limit is withdrawn before the last (surveyed) limit is entered
+            nw.remove_constraint(draft["name"])
         # terms listed in the constraint's own (generated) order, not station order
-        nw.add_constraint(sut.Current(dict(c["coeffs"])), c["limit"], name=c["name"])
+        if c.get("unnamed"):
+            nw.add_constraint(sut.Current(dict(c["coeffs"])), c["limit"])     # the network names it itself
+        else:
+            nw.add_constraint(sut.Current(dict(c["coeffs"])), c["limit"], name=c["name"])
     return nw
 
 
 def build_ev(s, np_scalars=False, battery=None):
-    a, d, e = s["arrival"], s["departure"], s["energy"]
+    # ev_arrival: the vehicle's own record says it arrived before the period of its plug-in event (it was on site before the
+    # simulated window / its plug-in was queued late); the plug-in event stays at s["arrival"]
+    a, d, e = s.get("ev_arrival", s["arrival"]), s["departure"], s["energy"]
     if np_scalars:
         # values that come out of numpy / pandas pipelines (generate_events, DataFrames): numpy scalars instead of Python numbers
         a, d, e = sut.np.int64(a), sut.np.int64(d), sut.np.float64(e)
